@@ -199,7 +199,12 @@ def run(chk):
     mloops = [l for l in walk_local(L) if isinstance(l, ast.For) and "Marks" in norm(l.iter)]
     ok_f = ok_u = False
     detail = {}
-    if len(mloops) == 1:
+    adj = aud.adjacent_grouping(L)
+    if adj:
+        # grouping a candidate's marks with groupby collects *adjacent* marks only: a candidate whose marks are separated by
+        # another candidate's is processed twice and the later group wins -- the result depends on the order of the marks
+        detail["adjacent_grouping"] = [f"line {c_.lineno}: {norm(c_)[:80]}" for c_ in adj]
+    elif len(mloops) == 1 and isinstance(mloops[0].target, ast.Name):
         ml = mloops[0]
         m = norm(ml.target)
         body = structure_continues(ml.body)
@@ -236,8 +241,9 @@ def run(chk):
                     ok_f = symx.equivalent(I(cnt, E(old), got), E(old))[0] and not symx.equivalent(got, E(old))[0]
                     detail["filter"] = "slot unchanged whenever not (IsVote or not enforce_rules)"
                     chk.exhaustive = True
-    chk.ob("C19.R4", where, "counted-marks", ok_f, "a mark is counted iff IsVote or rules are not enforced", node=mloops[0] if mloops else L,
-           **{k: v for k, v in detail.items() if k == "filter"})
+    if not adj:  # (with adjacent grouping the update below is refuted; the filter is then not examined)
+        chk.ob("C19.R4", where, "counted-marks", ok_f, "a mark is counted iff IsVote or rules are not enforced", node=mloops[0] if mloops else L,
+               **{k: v for k, v in detail.items() if k == "filter"})
     chk.ob("C19.R4", where, "smallest-positive-rank", ok_u,
            "per candidate: absent -> the mark's rank; present -> min(old, rank) when both are positive, the positive one when only one "
            "is, unchanged when the new rank is falsy: the smallest positive rank among the counted marks, whatever their order",
